@@ -305,6 +305,11 @@ for _r, _props in REFACTORINGS.items():
     if _os.path.exists(_os.path.join(_ROOT, "benign", f"B7-{_r}", "refactor.diff")):
         CORPUS.append({"name": f"refactoring-B7-{_r}", "props": ALL.split(","), "kind": "benign", "edits": [],
                        "diff": f"benign/B7-{_r}/refactor.diff", "base": f"benign/B6-{_r}/refactor.diff"})
+    # eighth pass, stacked on B6 + B7 (round B8: names, aliases and argument style - attribute chains hoisted into locals,
+    # positional <-> keyword arguments, ** of a local dict, nested function <-> private method, tuple unpacking styles)
+    if _os.path.exists(_os.path.join(_ROOT, "benign", f"B8-{_r}", "refactor.diff")):
+        CORPUS.append({"name": f"refactoring-B8-{_r}", "props": ALL.split(","), "kind": "benign", "edits": [],
+                       "diff": f"benign/B8-{_r}/refactor.diff", "base": f"benign/B7-{_r}/stacked.diff"})
 # feature twins: the benign half of a seeded feature addition (the feature without the defect) - no check may report them
 for _f in sorted(_os.listdir(_os.path.join(_ROOT, "benign"))):
     if _f.startswith("F") and _os.path.exists(_os.path.join(_ROOT, "benign", _f, "refactor.diff")):
